@@ -183,11 +183,37 @@ func propC14(r *kernel.Run) {
 			}
 		}
 	}
+	// outage: the clock jumped past the validity of the server's roots and/or the node's certificates without anybody
+	// rotating (server was down, operator asleep). While it lasts an honest node may be unable to connect; what must
+	// still hold is that nothing panics and every failure stays a temporary, per-connection error. After recovery
+	// (roots rotated, node enrolled again) the honest node connects again.
+	outage := false
 	honestDial := func(after string) {
 		res := w.DialHonest(fmt.Sprintf("honest%d", r.NextID()), nodeW, w.Addr)
 		w.Quiesce()
 		if !res.done {
 			r.Violate("keeps-accepting", "honest-dial-stuck/"+after, "an honest dial after a %s connection did not finish (listener no longer accepting?) parked=%v", after, r.Sched.ParkedAt())
+		}
+		if outage {
+			for _, a := range w.Take() {
+				switch {
+				case a.panicMsg != "":
+					r.Violate("no-panic", "accept-panic/"+a.panicSite, "Accept panicked on an honest connection during a validity outage: %s", a.panicMsg)
+				case a.err != nil && !a.temporary:
+					r.Violate("temporary-errors", "non-temporary-error-for-connection", "non-temporary error while serving an honest node during a validity outage: %v", a.err)
+				}
+				if a.raw != nil {
+					a.raw.Close()
+				}
+			}
+			if res.conn != nil {
+				res.conn.Close()
+				r.Count("probe.honest_connects_during_outage", 1)
+			}
+			w.Quiesce()
+			w.Take()
+			r.Count("ops.honest_dial_during_outage", 1)
+			return
 		}
 		if res.err != nil {
 			r.Violate("keeps-accepting", "honest-dial-failed", "an honest node could not connect after a %s connection: %v", after, shortErr(res.err))
@@ -214,8 +240,20 @@ func propC14(r *kernel.Run) {
 		r.Count("ops.honest_dial", 1)
 	}
 
+	jumpAt := -1
+	if tp.Draw(3) == 0 {
+		jumpAt = tp.Draw(nconn)
+	}
 	for i := 0; i < nconn; i++ {
 		name := fmt.Sprintf("hostile%d", i)
+		if i == jumpAt {
+			// clock jump: 8d = next root has started, 15d = current expired and nobody rotated, 22d/40d = everything expired
+			d := []time.Duration{8 * 24 * time.Hour, 15 * 24 * time.Hour, 22 * 24 * time.Hour, 40 * 24 * time.Hour}[tp.Draw(4)]
+			r.Sleep(d + time.Duration(tp.Draw(3600))*time.Second)
+			outage = true
+			r.Count("fault.clock_jump_past_validity", 1)
+			r.Tracef("clock jump %v: validity outage begins", d)
+		}
 		kind := Pick2(tp, "raw-bytes", "alpn", "alpn", "alpn", "dropped-handshake", "dropped-handshake", "stall-then-drop", "unauthorized-fetch", "peer-aborts-with-alert")
 		class := ""
 		// the server's own Close of a refused/handled connection may report an error (peer reset): still a per-connection matter
@@ -336,6 +374,19 @@ func propC14(r *kernel.Run) {
 		if tp.Draw(2) == 0 {
 			honestDial(kind + "/" + classKey(class))
 		}
+	}
+	if outage {
+		honestDial("last-hostile-during-outage")
+		// recovery: the operator rotates the roots (twice: the first call may only promote) and the node enrolls afresh
+		for k := 0; k < 2; k++ {
+			if _, err := rotation.RotateRootCertificates(srv.Ctx, srv.Storage, srv.Opts()...); err != nil {
+				r.Violate("keeps-accepting", "cannot-recover-roots", "root rotation after a validity outage failed: %v", shortErr(err))
+			}
+		}
+		nodeW = NewWorld(r, "node-after-outage", "inmem", false, false)
+		enrollStored(r, srv, nodeW, nil, "")
+		outage = false
+		r.Count("ops.recovered_from_outage", 1)
 	}
 	honestDial("last-hostile")
 	// only closure or failure of the underlying listener produces a non-temporary error
